@@ -19,9 +19,9 @@ COMPONENTS = {"real": ["compiler tail-call generation", "VM TAIL_CALL/APPLY1 fra
               "stub": ["slice lengths", "collection schedule", "interrupt instant", "clock"]}
 BUDGET = {"quick": {"seconds": 60, "cases": 4000}, "thorough": {"seconds": 1200, "cases": 200000}}
 CONFIGS = {
-    "tiny": {"variant": "tiny", "imports": ["(srfi 18)", "(scheme case-lambda)"], "timeout_ms": 120000},
-    "sim": {"variant": "sim", "imports": ["(srfi 18)", "(scheme case-lambda)"], "timeout_ms": 120000},
-    "asan": {"variant": "asan", "imports": ["(srfi 18)", "(scheme case-lambda)"], "timeout_ms": 300000},
+    "tiny": {"variant": "tiny", "imports": ["(srfi 18)", "(scheme case-lambda)", "(srfi 95)", "(srfi 69)"], "timeout_ms": 120000},
+    "sim": {"variant": "sim", "imports": ["(srfi 18)", "(scheme case-lambda)", "(srfi 95)", "(srfi 69)"], "timeout_ms": 120000},
+    "asan": {"variant": "asan", "imports": ["(srfi 18)", "(scheme case-lambda)", "(srfi 95)", "(srfi 69)"], "timeout_ms": 300000},
 }
 CEILING = {"tiny": 32768, "sim": 1024000, "asan": 1024000}
 
@@ -159,6 +159,17 @@ def generate(rng, tier, index, seed):
         base = "'()" if "cons n" in shape and "let" not in shape else "0"
         defs = "(define (count2 n . rest) (count n)) (define (count n) (if (= n 0) %s %s))" % (base, shape)
         call = "(let ((r (count %d))) (if (pair? r) (length r) r))" % depth
+        via = rng.choice(["direct", "direct", "sort", "hash", "sort-churn"])
+        if via != "direct":
+            # the whole recursion happens inside a Scheme callback invoked from C (SRFI 95 sort comparator / SRFI 69 hash function):
+            # a nested VM activation grows the shared stack while the outer activation is suspended in the C procedure
+            inner = "(let ((r (count %d))) (if (pair? r) (length r) r))" % depth
+            if via == "hash":
+                call = ("(let ((res #f)) (let ((t (make-hash-table equal? (lambda (k . o) (set! res %s) 0)))) (hash-table-set! t 'a 1) "
+                        "(let loop ((i 0) (acc '())) (if (< i 3000) (loop (+ i 1) (cons (make-vector 3 i) acc)))) res))" % inner)
+            else:
+                churn = "(let loop ((i 0) (acc '())) (if (< i 20000) (loop (+ i 1) (if (> i 19990) (cons (make-vector 5 i) acc) '()))))" if via == "sort-churn" else "'no-churn"
+                call = ("(let ((res #f)) (let ((l (sort (list 3 1 2) (lambda (a b) (if (not res) (set! res %s)) (< a b))))) %s (if (equal? l '(1 2 3)) res (list 'bad-sort l))))" % (inner, churn))
         if kind == "deep-thread":
             call = "(call/cc (lambda (k) (with-exception-handler (lambda (e) (k (list 'thread-raised (if (error-object? e) (error-object-message e) e)))) (lambda () (thread-join! (thread-start! (make-thread (lambda () %s))))))))" % call
             sched["quantum"] = [rng.range(1, 200) for _ in range(rng.range(10, 300))]
@@ -227,7 +238,8 @@ def execute(case, run):
     elif kind in ("deep", "deep-thread"):
         r = steps[1]
         d = meta["depth"]
-        oos = "out of stack" in r["res"] or ("out of stack" in r["out"])
+        # (SRFI 69 reports an error raised by a user hash function on the error port and carries on with bucket 0, by design)
+        oos = "out of stack" in r["res"] or ("out of stack" in r["out"]) or (r["res"] == "#f" and "out of stack" in (r.get("err") or ""))
         val_ok = (not r["exc"]) and r["res"] == str(d)
         thread_raised = r["res"].startswith("(thread-raised")
         if not (val_ok or oos or (kind == "deep-thread" and thread_raised and "out of stack" in (r["res"] + (r.get("err") or "")))):
